@@ -7,12 +7,14 @@ Specification side of C02 and the level-by-level correctness lemmas of the recur
 
     Expr  := Or ('?' Or ':' Expr)?          Or  := And ('||' And)*       And := Rel ('&&' Rel)*
     Rel   := Add (relop Add)*               Add := Mul (('+'|'-') Mul)*  Mul := Unary (('*'|'/'|'%') Unary)*
-    Unary := Member | '!'+ Member | '-'+ Member                          Member := IDENT | INT | '(' Expr ')'
+    Unary := Member | '!'+ Member | '-'+ Member
+    Member := Primary ('.' IDENT | '[' Expr ']' | '(' (Expr (',' Expr)?)? ')')*     Primary := IDENT | INT | '(' Expr ')'
 
 written as a plain binary tree: `T.Wf` says that every child sits at a grammar level its position
 admits (left operand: the operator's own level or tighter — grouping to the left; right operand:
 strictly tighter; condition and true branch of `?:`: `Or` or tighter; else branch: any expression;
-operand of a unary run: a `Member`).  Terminals carry their source spans, so `render t` is the token
+operand of a unary run and base of a postfix operation: a `Member`; calls are given with 0, 1 or 2
+arguments).  Terminals carry their source spans, so `render t` is the token
 list (with spans) the tree derives and `embed t` is the syntax tree, spans included, that the grammar
 assigns to it.
 -/
@@ -29,11 +31,16 @@ inductive T
   | negs (o : Span) (os : List Span) (e : T)      -- a run of unary `-`
   | bin (op : BinOp) (osp : Span) (l r : T)
   | tern (qsp csp : Span) (c t f : T)
+  | access (e : T) (dsp isp : Span) (name : Str)          -- `e.name`
+  | index (e : T) (lsp rsp : Span) (i : T)                -- `e[i]`
+  | call0 (e : T) (lsp rsp : Span)                        -- `e()`
+  | call1 (e : T) (lsp rsp : Span) (a : T)                -- `e(a)`
+  | call2 (e : T) (lsp rsp : Span) (a : T) (csp : Span) (b : T)   -- `e(a, b)`
 
 /-- Grammar level of the production a node is built by (the table of the property text):
     `?:` 0 < `||` 1 < `&&` 2 < relations and `in` 3 < `+ -` 4 < `* / %` 5 < unary runs 6 < member 7. -/
 def T.level : T → Nat
-  | .ident .. | .int .. | .paren .. => 7
+  | .ident .. | .int .. | .paren .. | .access .. | .index .. | .call0 .. | .call1 .. | .call2 .. => 7
   | .nots .. | .negs .. => 6
   | .bin op .. => op.level
   | .tern .. => 0
@@ -47,6 +54,11 @@ def T.Wf : T → Prop
   | .negs _ _ e => 7 ≤ e.level ∧ e.Wf
   | .bin op _ l r => op.level ≤ l.level ∧ op.level + 1 ≤ r.level ∧ l.Wf ∧ r.Wf
   | .tern _ _ c t f => 1 ≤ c.level ∧ 1 ≤ t.level ∧ c.Wf ∧ t.Wf ∧ f.Wf
+  | .access e _ _ _ => 7 ≤ e.level ∧ e.Wf
+  | .index e _ _ i => 7 ≤ e.level ∧ e.Wf ∧ i.Wf
+  | .call0 e _ _ => 7 ≤ e.level ∧ e.Wf
+  | .call1 e _ _ a => 7 ≤ e.level ∧ e.Wf ∧ a.Wf
+  | .call2 e _ _ a _ b => 7 ≤ e.level ∧ e.Wf ∧ a.Wf ∧ b.Wf
 
 def tokOf : BinOp → Tok
   | .or => .oror | .and => .andand
@@ -63,10 +75,26 @@ def render : T → TS
   | .negs o os e => (o :: os).map (fun s => (Tok.minus, s)) ++ render e
   | .bin op osp l r => render l ++ (tokOf op, osp) :: render r
   | .tern q c a b f => render a ++ (.question, q) :: (render b ++ (.colon, c) :: render f)
+  | .access e d i n => render e ++ [(.dot, d), (.ident n, i)]
+  | .index e l r i => render e ++ (.lbracket, l) :: (render i ++ [(.rbracket, r)])
+  | .call0 e l r => render e ++ [(.lparen, l), (.rparen, r)]
+  | .call1 e l r a => render e ++ (.lparen, l) :: (render a ++ [(.rparen, r)])
+  | .call2 e l r a c b => render e ++ (.lparen, l) :: (render a ++ (.comma, c) :: (render b ++ [(.rparen, r)]))
 
 def runSpan (o : Span) (os : List Span) : Span := ⟨o.s, ((o :: os).getLast?.getD o).e⟩
 
-/-- The syntax tree of a derivation: one node per production, operands in source order. -/
+/-- A member node from its primary and its postfix chain (the span surrounds all of them). -/
+def mkMember (p : Prim) (chain : List MOp) : Ast :=
+  .member (joinAll p.span (chain.map MOp.span)) p chain
+
+/-- One more postfix operation on a member. -/
+def snocOp (a : Ast) (op : MOp) : Ast :=
+  match a with
+  | .member _ p chain => mkMember p (chain ++ [op])
+  | a => a
+
+/-- The syntax tree of a derivation: one node per production, operands in source order (the arguments
+    of a call are stored last to first, as `Program::ast()` has them). -/
 def embed : T → Ast
   | .ident sp n => .member sp (.ident sp n) []
   | .int sp n => .member sp (.int sp n) []
@@ -75,6 +103,11 @@ def embed : T → Ast
   | .negs o os e => .negRun ((embed e).span.join (runSpan o os)) (o :: os) (embed e)
   | .bin op _ l r => .bin ((embed l).span.join (embed r).span) op (embed l) (embed r)
   | .tern _ _ c t f => .tern ((embed c).span.join (embed f).span) (embed c) (embed t) (embed f)
+  | .access e d i n => snocOp (embed e) (.access (d.join i) i n)
+  | .index e l r i => snocOp (embed e) (.index (l.join r) (embed i))
+  | .call0 e l r => snocOp (embed e) (.call (l.join r) [])
+  | .call1 e l r a => snocOp (embed e) (.call (l.join r) [embed a])
+  | .call2 e l r a _ b => snocOp (embed e) (.call (l.join r) [embed b, embed a])
 
 /-- Nesting the parser's depth counter reaches below the starting depth (parentheses, else branches,
     unary runs). -/
@@ -85,6 +118,11 @@ def nest : T → Nat
   | .negs _ os e => max (os.length + 1) (nest e)
   | .bin _ _ l r => max (nest l) (nest r)
   | .tern _ _ c t f => max (nest c) (max (nest t) (nest f + 1))
+  | .access e _ _ _ => nest e
+  | .index e _ _ i => max (nest e) (nest i + 1)
+  | .call0 e _ _ => nest e
+  | .call1 e _ _ a => max (nest e) (nest a + 1)
+  | .call2 e _ _ a _ b => max (nest e) (max (nest a + 1) (nest b + 1))
 
 /-- Recursion fuel that suffices for the tree (a generous bound). -/
 def fuel : T → Nat
@@ -94,6 +132,16 @@ def fuel : T → Nat
   | .negs _ os e => os.length + fuel e + 6
   | .bin _ _ l r => fuel l + fuel r + 12
   | .tern _ _ c t f => fuel c + fuel t + fuel f + 30
+  | .access e _ _ _ => fuel e + 1
+  | .index e _ _ i => fuel e + fuel i + 20
+  | .call0 e _ _ => fuel e + 4
+  | .call1 e _ _ a => fuel e + fuel a + 24
+  | .call2 e _ _ a _ b => fuel e + fuel a + fuel b + 28
+
+/-- Postfix operations on the spine of a member plus one: iterations of the member loop. -/
+def mspine : T → Nat
+  | .access e .. | .index e .. | .call0 e .. | .call1 e .. | .call2 e .. => mspine e + 1
+  | _ => 1
 
 /-- Number of operators of level `k` on the left spine of `t` plus one: iterations of the level-`k` loop. -/
 def spine (k : Nat) : T → Nat
@@ -107,6 +155,9 @@ theorem level_le (t : T) : t.level ≤ 7 := by
 theorem spine_le (k : Nat) (t : T) : spine k t ≤ fuel t := by
   induction t <;> simp [spine, fuel]
   case bin op _ l r ihl _ => split <;> omega
+
+theorem mspine_le (t : T) : mspine t ≤ fuel t := by
+  induction t <;> simp [mspine, fuel] <;> omega
 
 theorem spine_of_lt {k : Nat} {t : T} (h : k < t.level) : spine k t = 1 := by
   cases t <;> simp [spine]
@@ -160,20 +211,35 @@ def startTok : Tok → Bool
   | _ => false
 
 theorem render_head (t : T) : ∃ tk sp r, render t = (tk, sp) :: r ∧ startTok tk = true ∧
-    (7 ≤ t.level → tk ≠ .not ∧ tk ≠ .minus) := by
+    (t.Wf → 7 ≤ t.level → tk ≠ .not ∧ tk ≠ .minus) := by
   induction t with
-  | ident sp n => exact ⟨_, _, _, rfl, rfl, fun _ => by simp⟩
-  | int sp n => exact ⟨_, _, _, rfl, rfl, fun _ => by simp⟩
-  | paren l r e _ => exact ⟨_, _, _, rfl, rfl, fun _ => by simp⟩
-  | nots o os e _ => exact ⟨_, _, _, rfl, rfl, fun h => by simp [T.level] at h⟩
-  | negs o os e _ => exact ⟨_, _, _, rfl, rfl, fun h => by simp [T.level] at h⟩
+  | ident sp n => exact ⟨_, _, _, rfl, rfl, fun _ _ => by simp⟩
+  | int sp n => exact ⟨_, _, _, rfl, rfl, fun _ _ => by simp⟩
+  | paren l r e _ => exact ⟨_, _, _, rfl, rfl, fun _ _ => by simp⟩
+  | nots o os e _ => exact ⟨_, _, _, rfl, rfl, fun _ h => by simp [T.level] at h⟩
+  | negs o os e _ => exact ⟨_, _, _, rfl, rfl, fun _ h => by simp [T.level] at h⟩
   | bin op osp l r ihl _ =>
     obtain ⟨tk, sp, r', h, hs, _⟩ := ihl
-    refine ⟨tk, sp, r' ++ (tokOf op, osp) :: render r, by simp [render, h], hs, fun h7 => ?_⟩
+    refine ⟨tk, sp, r' ++ (tokOf op, osp) :: render r, by simp [render, h], hs, fun _ h7 => ?_⟩
     cases op <;> simp [T.level, BinOp.level] at h7
   | tern q c a b f iha _ _ =>
     obtain ⟨tk, sp, r', h, hs, _⟩ := iha
-    exact ⟨tk, sp, _, by simp [render, h]; rfl, hs, fun h7 => by simp [T.level] at h7⟩
+    exact ⟨tk, sp, _, by simp [render, h]; rfl, hs, fun _ h7 => by simp [T.level] at h7⟩
+  | access e d i n ih =>
+    obtain ⟨tk, sp, r', h, hs, hne⟩ := ih
+    exact ⟨tk, sp, _, by simp [render, h]; rfl, hs, fun hw _ => hne hw.2 hw.1⟩
+  | index e l r i ih _ =>
+    obtain ⟨tk, sp, r', h, hs, hne⟩ := ih
+    exact ⟨tk, sp, _, by simp [render, h]; rfl, hs, fun hw _ => hne hw.2.1 hw.1⟩
+  | call0 e l r ih =>
+    obtain ⟨tk, sp, r', h, hs, hne⟩ := ih
+    exact ⟨tk, sp, _, by simp [render, h]; rfl, hs, fun hw _ => hne hw.2 hw.1⟩
+  | call1 e l r a ih _ =>
+    obtain ⟨tk, sp, r', h, hs, hne⟩ := ih
+    exact ⟨tk, sp, _, by simp [render, h]; rfl, hs, fun hw _ => hne hw.2.1 hw.1⟩
+  | call2 e l r a c b ih _ _ =>
+    obtain ⟨tk, sp, r', h, hs, hne⟩ := ih
+    exact ⟨tk, sp, _, by simp [render, h]; rfl, hs, fun hw _ => hne hw.2.1 hw.1⟩
 
 /-! ### The token source -/
 
